@@ -73,12 +73,17 @@ impl AnimDesc {
         let replace = self.builder_order & 4 != 0;
         // bit 3: leave `from_state` out when the initial state is the state type's Default anyway
         let implicit_state = self.builder_order & 8 != 0 && init == St::default();
+        // bit 4: leave `from_values` out when the initial values are the target type's Default anyway
+        let zero = Vals { a: 0.0, b: 0.0, c: 0, d: 0 };
+        let implicit_values = self.builder_order & 16 != 0 && self.initial_values == zero;
         let mut b = StateAnimatorBuilder::<St, PTimeline>::new();
         if order == 0 {
             if !implicit_state {
                 b = b.from_state(init);
             }
-            b = b.from_values(vals.clone());
+            if !implicit_values {
+                b = b.from_values(vals.clone());
+            }
         } else if order == 2 && !implicit_state {
             b = b.from_state(init);
         }
@@ -93,11 +98,13 @@ impl AnimDesc {
             }
         }
         if order == 1 {
-            b = b.from_values(vals);
+            if !implicit_values {
+                b = b.from_values(vals);
+            }
             if !implicit_state {
                 b = b.from_state(init);
             }
-        } else if order == 2 {
+        } else if order == 2 && !implicit_values {
             b = b.from_values(vals);
         }
         b.build()
